@@ -127,6 +127,7 @@ pub fn lines_of(tokens: &[RefTok]) -> Vec<LinePres> {
 }
 
 pub fn self_check(rng: &mut crate::rng::Rng, n: u64) -> u64 {
+    let n = if cfg!(miri) { n.min(10) } else { n };
     for _ in 0..n {
         let n_src = rng.range_usize(1, 4);
         let n_names = rng.range_usize(1, 4);
